@@ -261,14 +261,16 @@ Section C13W.
       accepted o2 ++ rest = wbuf c /\
       (st c2 <> Disconnected -> wbuf c2 = rest) /\ reconnect c2 = reconnect c.
   Proof.
-    intros Hr H. unfold poll_connected in H.
-    destruct (if wr then try_send now ss c else (c, no_out)) as [c1 o1] eqn:E1.
-    assert (W : exists rest, accepted o1 ++ rest = wbuf c /\ reconnect c1 = reconnect c /\
-                             (st c1 <> Disconnected -> wbuf c1 = rest)).
-    { destruct wr.
+    intros Hr H. unfold poll_connected, poll_connected_gen in H.
+    match type of H with (let (_, _) := ?W in _) = _ => destruct W as [c1' o1] eqn:E1' end.
+    apply write_part_spec in E1' as (c1 & E1 & ->).
+    assert (W : exists rest, accepted o1 ++ rest = wbuf c /\ reconnect (wpost wr c1) = reconnect c /\
+                             (st (wpost wr c1) <> Disconnected -> wbuf (wpost wr c1) = rest)).
+    { rewrite wpost_reconnect, wpost_st, wpost_wbuf. destruct wr.
       - apply try_send_spec in E1 as (rest & A & _ & _ & _ & B & C & _).
         exists rest. repeat split; try assumption. intros Hn. exact (proj1 (C Hr Hn)).
       - pair_eq E1 c1 o1. exists (wbuf c). repeat split. }
+    remember (wpost wr c1) as c1w eqn:Ew. clear Ew E1 c1. rename c1w into c1.
     destruct W as (rest & A & R1 & B). exists rest.
     destruct (st c1) eqn:Es1.
     { pair_eq H c2 o2. repeat split; try assumption. congruence. }
@@ -300,7 +302,7 @@ Section C13W.
       (st c = Disconnected -> st c1 = Disconnected) /\
       reconnect c1 = reconnect c.
   Proof.
-    intros Hr H. unfold step in H.
+    intros Hr H. unfold step, step_gen in H; fold (poll_connected dec) in H.
     (* every branch that ends in disconnect(): nothing accepted, DISCONNECTED *)
     assert (Hd : forall cd od, disconnect now c = (cd, od) ->
                  accepted od = [] /\ st cd = Disconnected /\ reconnect cd = reconnect c).
@@ -343,7 +345,9 @@ Section C13W.
   Proof.
     intros Hr Hn H. destruct e as [now p script|now rd wr er soerr ss rs|now|now]; [| | |destruct Hn].
     - (* ESend *)
-      unfold step in H. apply try_send_spec in H as (rest & A & _ & _ & _ & R & B & C & _).
+      apply step_send_inv in H as (c0 & H & ->).
+      rewrite send_subscribe_st, send_subscribe_wbuf, (proj1 (proj2 (proj2 (proj2 (proj2 (proj2 (send_subscribe_fields c0))))))).
+      apply try_send_spec in H as (rest & A & _ & _ & _ & R & B & C & _).
       exists rest. cbn [wbuf set_wbuf] in A.
       unfold sent_of, sent_payloads. cbn [flat_map map concat app]. rewrite app_nil_r.
       repeat split; [exact A| |intros Hs; apply C; exact Hs|exact R].
@@ -354,7 +358,7 @@ Section C13W.
       unfold sent_of, sent_payloads. cbn [flat_map map concat app]. rewrite app_nil_r.
       repeat split; assumption.
     - (* EDisconnect *)
-      unfold step in H.
+      unfold step, step_gen in H; fold (poll_connected dec) in H.
       apply disconnect_spec in H as (_ & A & _ & _ & _ & _ & _ & _ & _ & B4 & B5 & B6).
       exists (wbuf c). rewrite A. unfold sent_of, sent_payloads. cbn.
       rewrite app_nil_r. repeat split; [|exact B6|exact B4].
@@ -413,31 +417,43 @@ Section C13W.
   Definition silent (o : outs) : Prop :=
     delivered o = [] /\ disc_calls o = 0%nat /\ conn_calls o = 0%nat /\ miss o = false.
 
+  (* equal except for the poller subscription *)
+  Definition eqi (a b : conn) : Prop :=
+    st a = st b /\ rbuf a = rbuf b /\ wbuf a = wbuf b /\ last_read a = last_read b /\
+    timeout a = timeout b /\ reconnect a = reconnect b /\ reuse_fd a = reuse_fd b.
+
+  Lemma eqi_send_subscribe c : eqi (send_subscribe c) c.
+  Proof. exact (send_subscribe_fields c). Qed.
+
+  Lemma eqi_resubscribe c : eqi (resubscribe c) c.
+  Proof. exact (resubscribe_fields c). Qed.
+
   Lemma step_writer_benign c e c1 o :
     st c = Connected -> benign_event (last_read c) (timeout c) e ->
     step dec c e = (c1, o) ->
     exists rest,
-      c1 = set_wbuf c rest /\ accepted o ++ rest = wbuf c ++ sent_of [e] /\ silent o.
+      eqi c1 (set_wbuf c rest) /\ accepted o ++ rest = wbuf c ++ sent_of [e] /\ silent o.
   Proof.
     intros Hst Hb H.
     destruct e as [now p script|now rd wr er soerr ss rs|now|now]; [| |destruct Hb|destruct Hb].
-    - destruct Hb as [Ht Hs]. unfold step in H.
+    - destruct Hb as [Ht Hs]. apply step_send_inv in H as (c0 & H & ->).
       apply try_send_spec in H as (rest & A & B & C & C' & _ & _ & _ & D).
       assert (Hl : st (set_wbuf c (wbuf c ++ frame p)) <> Disconnected)
         by (cbn [st set_wbuf]; congruence).
-      destruct (D Hl Ht Hs) as [D1 D2]. exists rest.
+      destruct (D Hl Ht Hs) as [D1 D2]. exists rest. subst c0.
       unfold sent_of, sent_payloads. cbn [flat_map map concat app]. rewrite app_nil_r.
-      repeat split; assumption.
-    - destruct Hb as (-> & -> & -> & Ht & Hs). unfold step in H. rewrite Hst in H.
+      split; [exact (eqi_send_subscribe _)|]. repeat split; assumption.
+    - destruct Hb as (-> & -> & -> & Ht & Hs). unfold step, step_gen in H; fold (poll_connected dec) in H. rewrite Hst in H.
       rewrite (check_timeout_ok now c Ht) in H. cbv beta iota zeta in H. rewrite Hst in H.
-      rewrite andb_false_r in H. cbn [andb] in H. unfold poll_connected in H.
+      rewrite andb_false_r in H. cbn [andb] in H. unfold poll_connected, poll_connected_gen in H.
       unfold sent_of, sent_payloads. cbn [flat_map map concat app]. rewrite app_nil_r.
       destruct wr.
       + destruct (try_send now ss c) as [c2 o2] eqn:E2.
         apply try_send_spec in E2 as (rest & A & B & C & C' & _ & _ & _ & D).
         destruct (D ltac:(congruence) Ht Hs) as [D1 D2]. subst c2. cbn [st set_wbuf] in H.
+        rewrite Hst in H. cbn [st resubscribe set_interest set_wbuf] in H.
         rewrite Hst in H. pair_eq H c1 o. rewrite out_app_no_out_l.
-        exists rest. repeat split; assumption.
+        exists rest. split; [exact (eqi_resubscribe _)|]. repeat split; assumption.
       + cbv beta iota in H. rewrite Hst in H. pair_eq H c1 o.
         exists (wbuf c). rewrite set_wbuf_same. repeat split.
   Qed.
@@ -446,7 +462,7 @@ Section C13W.
     st c = Connected -> Forall (benign_event (last_read c) (timeout c)) es ->
     run dec c es = (c', os) ->
     exists rest,
-      c' = set_wbuf c rest /\ acc_of os ++ rest = wbuf c ++ sent_of es /\ Forall silent os.
+      eqi c' (set_wbuf c rest) /\ acc_of os ++ rest = wbuf c ++ sent_of es /\ Forall silent os.
   Proof.
     induction es as [|e es IH]; intros c c' os Hst Hb H; cbn [run] in H.
     - pair_eq H c' os. exists (wbuf c). rewrite set_wbuf_same. cbn. rewrite app_nil_r.
@@ -454,12 +470,20 @@ Section C13W.
     - inversion Hb as [|e' es' Hb1 Hb2]; subst e' es'.
       destruct (step dec c e) as [c1 o] eqn:E1.
       destruct (run dec c1 es) as [c2 os2] eqn:E2. pair_eq H c' os.
-      apply (step_writer_benign c e c1 o Hst Hb1) in E1 as (rest1 & -> & A1 & S1).
-      apply (IH (set_wbuf c rest1) c2 os2 Hst Hb2) in E2 as (rest & -> & A & S).
-      cbn [wbuf set_wbuf] in A.
+      apply (step_writer_benign c e c1 o Hst Hb1) in E1 as (rest1 & Q1 & A1 & S1).
+      destruct Q1 as (Q1 & Q2 & Q3 & Q4 & Q5 & Q6 & Q7).
+      cbn [st rbuf wbuf last_read timeout reconnect reuse_fd set_wbuf] in Q1, Q2, Q3, Q4, Q5, Q6, Q7.
+      assert (Hst1 : st c1 = Connected) by congruence.
+      assert (Hb2' : Forall (benign_event (last_read c1) (timeout c1)) es) by (rewrite Q4, Q5; exact Hb2).
+      apply (IH c1 c2 os2 Hst1 Hb2') in E2 as (rest & Q & A & S).
+      rewrite Q3 in A.
       exists rest. change (acc_of (o :: os2)) with (accepted o ++ acc_of os2).
       rewrite (sent_of_cons e es), <- app_assoc, A, !app_assoc, A1.
-      repeat split. constructor; assumption.
+      split; [|split; [reflexivity|constructor; assumption]].
+      destruct Q as (P1 & P2 & P3 & P4 & P5 & P6 & P7).
+      cbn [st rbuf wbuf last_read timeout reconnect reuse_fd set_wbuf] in P1, P2, P3, P4, P5, P6, P7.
+      unfold eqi. cbn [st rbuf wbuf last_read timeout reconnect reuse_fd set_wbuf].
+      repeat split; congruence.
   Qed.
 
   (* the form asked for: from an empty write buffer, acc ++ wbuf = sent, the
@@ -472,8 +496,10 @@ Section C13W.
     st c' = Connected /\ rbuf c' = rbuf c /\ Forall silent os.
   Proof.
     intros Hst Hw Hb H.
-    destruct (writer_benign es c c' os Hst Hb H) as (rest & -> & A & S).
-    rewrite Hw in A. cbn [app] in A. cbn [wbuf st rbuf set_wbuf].
+    destruct (writer_benign es c c' os Hst Hb H) as (rest & Q & A & S).
+    destruct Q as (P1 & P2 & P3 & _).
+    cbn [st rbuf wbuf set_wbuf] in P1, P2, P3.
+    rewrite Hw in A. cbn [app] in A. rewrite P1, P2, P3.
     repeat split; assumption.
   Qed.
 
@@ -583,9 +609,9 @@ Section C13W.
     step dec c (ESend now p (map SAccept ks ++ f :: post))
     = (dead now c, disc_out_acc (firstn (total ks) (wbuf c ++ frame p))).
   Proof.
-    intros Hst Ht Hf Hlen. unfold step.
+    intros Hst Ht Hf Hlen. unfold step, step_gen; fold (poll_connected dec).
     rewrite (try_send_failure now ks f post (set_wbuf c (wbuf c ++ frame p)) Hst Ht Hf Hlen).
-    reflexivity.
+    rewrite (send_subscribe_off _ (dead_not_connected now _)). reflexivity.
   Qed.
 
   Theorem writer_failure_poll c now rd soerr ks f post rs :
@@ -594,9 +620,9 @@ Section C13W.
     step dec c (EPoll now rd true false soerr (map SAccept ks ++ f :: post) rs)
     = (dead now c, disc_out_acc (firstn (total ks) (wbuf c))).
   Proof.
-    intros Hst Ht Hf Hlen ->. unfold step. rewrite Hst.
+    intros Hst Ht Hf Hlen ->. unfold step, step_gen; fold (poll_connected dec). rewrite Hst.
     rewrite (check_timeout_ok now c Ht). cbv beta iota zeta. rewrite Hst.
-    rewrite andb_false_r. cbn [andb]. unfold poll_connected.
+    rewrite andb_false_r. cbn [andb]. unfold poll_connected, poll_connected_gen.
     rewrite (try_send_failure now ks f post c Hst Ht Hf Hlen).
     cbv beta iota. unfold dead. destruct (reconnect c); cbn [st connect cleared];
       rewrite out_app_no_out_l; reflexivity.
@@ -606,9 +632,9 @@ Section C13W.
     st c = Connected -> now - last_read c > timeout c ->
     step dec c (ESend now p script) = (dead now c, disc_out).
   Proof.
-    intros Hst Ht. unfold step.
+    intros Hst Ht. unfold step, step_gen; fold (poll_connected dec).
     rewrite (try_send_timeout now script (set_wbuf c (wbuf c ++ frame p)) Hst Ht).
-    reflexivity.
+    rewrite (send_subscribe_off _ (dead_not_connected now _)). reflexivity.
   Qed.
 
   (* a poll after the timeout, no reconnecting callback *)
@@ -616,7 +642,7 @@ Section C13W.
     st c = Connected -> reconnect c = false -> now - last_read c > timeout c ->
     step dec c (EPoll now rd wr false soerr ss rs) = (cleared c, disc_out).
   Proof.
-    intros Hst Hr Ht. unfold step, check_timeout. rewrite Hst.
+    intros Hst Hr Ht. unfold step, step_gen, check_timeout. rewrite Hst.
     rewrite (timed_out_true now c Ht). cbv zeta.
     rewrite disconnect_live by congruence. unfold dead. rewrite Hr. reflexivity.
   Qed.
@@ -629,10 +655,11 @@ Section C13W.
     step dec c (EPoll now rd wr false soerr ss rs) =
       if rd || wr
       then ({| st := Connected; rbuf := []; wbuf := []; last_read := now;
-               timeout := timeout c; reconnect := true |}, out_app disc_out conn_out)
+               timeout := timeout c; reconnect := true; interest := Some RWE; reuse_fd := reuse_fd c |},
+            out_app disc_out conn_out)
       else (connect now c, disc_out).
   Proof.
-    intros Hst Hr Ht. unfold step, check_timeout. rewrite Hst.
+    intros Hst Hr Ht. unfold step, step_gen, check_timeout. rewrite Hst.
     rewrite (timed_out_true now c Ht). cbv zeta.
     rewrite disconnect_live by congruence. unfold dead. rewrite Hr.
     cbn [st connect]. rewrite andb_false_r.
@@ -696,9 +723,9 @@ Definition ex_payload (m : N) : bytes :=
 Definition ex_dec : bytes -> dres :=
   table_dec [([10; 11; 12]%N, Some 1%N); ([20; 21]%N, Some 2%N); ([66]%N, None)].
 
-Definition ex_c0 : conn := init_conn 0 10 false.
+Definition ex_c0 : conn := init_conn 0 10 false false.
 (* the same connection with a reconnecting onDisconnected callback *)
-Definition ex_c1 : conn := init_conn 0 10 true.
+Definition ex_c1 : conn := init_conn 0 10 true false.
 
 Ltac ex_arith := vm_compute; first [lia | discriminate | reflexivity].
 Ltac ex_good := repeat (apply Forall_cons; [split; reflexivity|]); apply Forall_nil.
@@ -761,7 +788,7 @@ Proof. vm_compute. reflexivity. Qed.
 Example ex_step_poll_is_feed :
   step ex_dec ex_c0 (EPoll 3 true true false false [SAccept 5]
                        (chunks_script [[3; 0; 0]; [0; 10; 11; 12; 2]]%N ++ [REagain]))
-  = feed ex_dec 3 (set_last_read ex_c0 3) [3; 0; 0; 0; 10; 11; 12; 2]%N.
+  = feed ex_dec 3 (set_last_read (set_interest ex_c0 (Some (RE false))) 3) [3; 0; 0; 0; 10; 11; 12; 2]%N.
 Proof.
   apply (step_poll_is_feed ex_dec ex_c0 3 true [SAccept 5] [[3; 0; 0]; [0; 10; 11; 12; 2]]%N [REagain]).
   - reflexivity.
@@ -836,7 +863,7 @@ Qed.
 
 Example ex_writer_computed :
   run ex_dec ex_c0 ex_wevents
-  = (ex_c0,
+  = (set_interest ex_c0 (Some (RE false)),
      [{| accepted := [3; 0]%N; delivered := []; disc_calls := 0; conn_calls := 0; miss := false |};
       no_out;
       {| accepted := [0; 0; 10; 11; 12; 2; 0; 0; 0; 20; 21]%N; delivered := []; disc_calls := 0; conn_calls := 0; miss := false |}]).
@@ -903,7 +930,8 @@ Qed.
 Example ex_timeout_poll_reconnect :
   step ex_dec (set_wbuf (set_rbuf ex_c1 [3; 0]%N) [0; 0; 10]%N)
        (EPoll 11 true false false true [] [RChunk [1]%N false])
-  = ({| st := Connected; rbuf := []; wbuf := []; last_read := 11; timeout := 10; reconnect := true |},
+  = ({| st := Connected; rbuf := []; wbuf := []; last_read := 11; timeout := 10; reconnect := true;
+        interest := Some RWE; reuse_fd := false |},
      out_app disc_out conn_out).
 Proof.
   apply (timeout_poll_reconnect ex_dec (set_wbuf (set_rbuf ex_c1 [3; 0]%N) [0; 0; 10]%N) 11 true false);
@@ -982,7 +1010,7 @@ Qed.
 
 Example ex_reconnect_scenario_computed :
   run ex_dec ex_old (ex_burst :: EPoll 4 false true false false [] [] :: map poll_event ex_polls)
-  = (set_last_read (init_conn 0 10 true) 14,
+  = (set_last_read (init_conn 0 10 true false) 14,
      [disc_out; conn_out; mk_out []; mk_out [1%N]; mk_out [2%N]]).
 Proof. vm_compute. reflexivity. Qed.
 
@@ -1159,3 +1187,453 @@ Section C13Final.
   Qed.
 
 End C13Final.
+
+(* ------------------------------------------------------------------ *)
+(* C13_write_interest: the poller subscription                         *)
+
+(* the subscription is what the state of the connection needs:
+   DISCONNECTED: nothing subscribed; CONNECTING: READ|WRITE|ERROR (connect completion is reported
+   as writability); CONNECTED: READ and ERROR, and WRITE whenever bytes wait in the write buffer *)
+Definition sub_ok (c : conn) : Prop :=
+  match st c with
+  | Disconnected => interest c = None
+  | Connecting => interest c = Some RWE
+  | Connected =>
+    exists m, interest c = Some m /\ m_rd m = true /\ m_er m = true /\ (wbuf c <> [] -> m_wr m = true)
+  end.
+
+(* sub_ok without the clause about the write buffer (what holds inside send(), between
+   `self.__writeBuffer += data` and the subscribe at its end) *)
+Definition sub_ok0 (c : conn) : Prop :=
+  match st c with
+  | Disconnected => interest c = None
+  | Connecting => interest c = Some RWE
+  | Connected => exists m, interest c = Some m /\ m_rd m = true /\ m_er m = true
+  end.
+
+Lemma sub_ok_weaken c : sub_ok c -> sub_ok0 c.
+Proof.
+  unfold sub_ok, sub_ok0. destruct (st c); try exact (fun H => H).
+  intros (m & A & B & C & _). exists m. repeat split; assumption.
+Qed.
+
+(* [c'] comes from [c] by steps that leave state and subscription alone and do not grow the write
+   buffer, or by a disconnect() *)
+Definition keeps (c c' : conn) : Prop :=
+  (st c' = st c /\ interest c' = interest c /\ (wbuf c' <> [] -> wbuf c <> [])) \/
+  (sub_ok c' /\ st c' <> Connected).
+
+Lemma keeps_refl c : keeps c c.
+Proof. left. repeat split. exact (fun H => H). Qed.
+
+Lemma sub_ok_not_connected_eq c c' :
+  st c' = st c -> interest c' = interest c -> st c <> Connected -> sub_ok c -> sub_ok c'.
+Proof.
+  unfold sub_ok. intros Hs Hi Hn. rewrite Hs, Hi.
+  destruct (st c); [exact (fun H => H)|exact (fun H => H)|congruence].
+Qed.
+
+Lemma keeps_trans a b c : keeps a b -> keeps b c -> keeps a c.
+Proof.
+  intros [(A1 & A2 & A3)|(A1 & A2)] [(B1 & B2 & B3)|(B1 & B2)].
+  - left. repeat split; [congruence|congruence|]. intros H. exact (A3 (B3 H)).
+  - right. split; assumption.
+  - right. split; [|congruence].
+    exact (sub_ok_not_connected_eq b c B1 B2 A2 A1).
+  - right. split; assumption.
+Qed.
+
+Lemma keeps_sub_ok c c' : sub_ok c -> keeps c c' -> sub_ok c'.
+Proof.
+  intros H [(A1 & A2 & A3)|(A1 & _)]; [|exact A1].
+  unfold sub_ok in *. rewrite A1, A2.
+  destruct (st c); try exact H.
+  destruct H as (m & B1 & B2 & B3 & B4). exists m. repeat split; try assumption.
+  intros Hw. exact (B4 (A3 Hw)).
+Qed.
+
+Lemma keeps_sub_ok0 c c' : sub_ok0 c -> keeps c c' -> sub_ok0 c'.
+Proof.
+  intros H [(A1 & A2 & A3)|(A1 & _)]; [|exact (sub_ok_weaken c' A1)].
+  unfold sub_ok0 in *. rewrite A1, A2. exact H.
+Qed.
+
+Lemma disconnect_keeps now c : keeps c (fst (disconnect now c)).
+Proof.
+  right. unfold disconnect, sub_ok.
+  destruct (st c); destruct (reconnect c); cbn; split; try reflexivity; discriminate.
+Qed.
+
+Lemma disconnect_sub_ok now c : sub_ok (fst (disconnect now c)).
+Proof. unfold disconnect, sub_ok. destruct (st c); destruct (reconnect c); cbn; reflexivity. Qed.
+
+Lemma check_timeout_keeps now c : keeps c (fst (check_timeout now c)).
+Proof.
+  unfold check_timeout. destruct (now - last_read c >? timeout c).
+  - apply disconnect_keeps.
+  - apply keeps_refl.
+Qed.
+
+Lemma send_loop_keeps now script : forall c, keeps c (fst (send_loop now script c)).
+Proof.
+  induction script as [|r script IH]; intros c; cbn [send_loop].
+  - destruct (wbuf c); apply keeps_refl.
+  - destruct (wbuf c) as [|x w] eqn:Ew; [apply keeps_refl|].
+    destruct r as [k| | | |]; try apply keeps_refl; try apply disconnect_keeps.
+    remember (Nat.max 1 (N.to_nat (N.min k (N.of_nat (length (x :: w)))))) as k' eqn:Ek.
+    pose proof (IH (set_wbuf c (skipn k' (x :: w)))) as K.
+    destruct (send_loop now script (set_wbuf c (skipn k' (x :: w)))) as [c2 o2]. cbn [fst] in *.
+    refine (keeps_trans c _ c2 _ K).
+    left. cbn [st interest wbuf set_wbuf]. repeat split. intros _. rewrite Ew. discriminate.
+Qed.
+
+Lemma try_send_keeps now script c : keeps c (fst (try_send now script c)).
+Proof.
+  unfold try_send. pose proof (check_timeout_keeps now c) as K1.
+  destruct (check_timeout now c) as [c1 o1]. cbn [fst] in K1.
+  destruct (st c1); [exact K1| |];
+    (pose proof (send_loop_keeps now script c1) as K2;
+     destruct (send_loop now script c1) as [c2 o2]; cbn [fst] in *;
+     exact (keeps_trans _ _ _ K1 K2)).
+Qed.
+
+Lemma read_loop_keeps now rs : forall c, keeps c (fst (read_loop now rs c)).
+Proof.
+  induction rs as [|r rs IH]; intros c; cbn [read_loop]; [apply keeps_refl|].
+  destruct r as [b soerr| |]; [|apply keeps_refl|apply disconnect_keeps].
+  destruct soerr; [apply disconnect_keeps|].
+  destruct b as [|x b]; [apply disconnect_keeps|].
+  refine (keeps_trans c _ _ _ (IH _)).
+  left. cbn [st interest wbuf set_rbuf]. repeat split. exact (fun H => H).
+Qed.
+
+Lemma parse_loop_keeps dec now fuel : forall c, keeps c (fst (parse_loop dec now fuel c)).
+Proof.
+  induction fuel as [|f IH]; intros c; cbn [parse_loop]; [apply keeps_refl|].
+  destruct (parse_one dec now c) as [c1 r] eqn:E1. apply parse_one_cases in E1.
+  destruct r as [|id| |].
+  - subst c1. apply keeps_refl.
+  - destruct E1 as [b ->]. pose proof (IH (set_rbuf c b)) as K.
+    destruct (parse_loop dec now f (set_rbuf c b)) as [c2 o2]. cbn [fst] in *.
+    refine (keeps_trans c _ c2 _ K).
+    left. cbn [st interest wbuf set_rbuf]. repeat split. exact (fun H => H).
+  - subst c1. cbn [fst]. apply disconnect_keeps.
+  - subst c1. apply keeps_refl.
+Qed.
+
+Lemma sub_ok_set_last_read c t : sub_ok c -> sub_ok (set_last_read c t).
+Proof. exact (fun H => H). Qed.
+
+Lemma send_subscribe_sub_ok c : sub_ok0 c -> sub_ok (send_subscribe c).
+Proof.
+  intros H. unfold send_subscribe. destruct (st c) eqn:Es.
+  - unfold sub_ok, sub_ok0 in *. rewrite Es in *. exact H.
+  - unfold sub_ok, sub_ok0 in *. rewrite Es in *. exact H.
+  - destruct (wbuf c) as [|x w] eqn:Ew.
+    + unfold sub_ok, sub_ok0 in *. rewrite Es in *. destruct H as (m & A & B & C).
+      exists m. repeat split; try assumption. intros Hn. congruence.
+    + unfold sub_ok. cbn [st set_interest interest wbuf]. rewrite Es.
+      exists RWE. repeat split.
+Qed.
+
+Lemma resubscribe_sub_ok c : st c = Connected -> sub_ok (resubscribe c).
+Proof.
+  intros Es. unfold sub_ok, resubscribe. cbn [st set_interest interest wbuf]. rewrite Es.
+  eexists. split; [reflexivity|]. cbn [m_rd m_wr m_er RE]. repeat split.
+  intros Hn. destruct (wbuf c); [congruence|reflexivity].
+Qed.
+
+Section C13Sub.
+  Variable dec : bytes -> dres.
+
+  Lemma poll_connected_sub_ok now rd wr ss rs c :
+    sub_ok c -> sub_ok (fst (poll_connected dec now rd wr ss rs c)).
+  Proof.
+    intros H. unfold poll_connected, poll_connected_gen.
+    match goal with |- sub_ok (fst (let (_, _) := ?W in _)) => assert (S2 : sub_ok (fst W)) end.
+    { destruct wr; [|exact H].
+      pose proof (try_send_keeps now ss c) as K.
+      destruct (try_send now ss c) as [c2 o2]. cbn [fst] in K.
+      pose proof (keeps_sub_ok c c2 H K) as S2.
+      destruct (st c2) eqn:Es2; cbn [fst]; [exact S2|exact S2|].
+      exact (resubscribe_sub_ok c2 Es2). }
+    match goal with |- sub_ok (fst (let (_, _) := ?W in _)) => destruct W as [c2 o2] end.
+    cbn [fst] in S2.
+    destruct (st c2) eqn:Es2; [exact S2|exact S2|].
+    destruct rd; [|exact S2].
+    pose proof (read_loop_keeps now rs c2) as K3.
+    destruct (read_loop now rs c2) as [c3 o3]. cbn [fst] in K3.
+    pose proof (keeps_sub_ok c2 c3 S2 K3) as S3.
+    cbv zeta. cbn [st set_last_read].
+    destruct (st c3) eqn:Es3; [exact S3| |].
+    all: pose proof (parse_loop_keeps dec now (S (length (rbuf (set_last_read c3 now)))) (set_last_read c3 now)) as K4;
+      unfold parse_all;
+      destruct (parse_loop dec now (S (length (rbuf (set_last_read c3 now)))) (set_last_read c3 now)) as [c4 o4];
+      cbn [fst] in *;
+      exact (keeps_sub_ok _ c4 (sub_ok_set_last_read c3 now S3) K4).
+  Qed.
+
+  Theorem step_sub_ok c e : sub_ok c -> sub_ok (fst (step dec c e)).
+  Proof.
+    intros H. destruct e as [now p script|now rd wr er soerr ss rs|now|now].
+    - rewrite step_send_eq. cbn [fst]. apply send_subscribe_sub_ok.
+      refine (keeps_sub_ok0 (set_wbuf c (wbuf c ++ frame p)) _ _ (try_send_keeps now script _)).
+      apply sub_ok_weaken in H. exact H.
+    - unfold step, step_gen; fold (poll_connected dec).
+      destruct (st c) eqn:Es; [exact H| |].
+      all: destruct er; [apply disconnect_sub_ok|].
+      all: pose proof (check_timeout_keeps now c) as K1;
+        destruct (check_timeout now c) as [c1 o1]; cbn [fst] in K1;
+        pose proof (keeps_sub_ok c c1 H K1) as S1;
+        cbv zeta;
+        destruct (st c1) eqn:Es1; [exact S1| |].
+      all: destruct ((rd || wr) && soerr && negb (now - last_read c >? timeout c));
+        [pose proof (disconnect_sub_ok now c1) as D; destruct (disconnect now c1) as [cd od]; exact D|].
+      1,3: destruct (rd || wr); [|exact S1];
+        cbn [fst]; unfold sub_ok in *; cbn [st interest wbuf]; rewrite Es1 in S1; rewrite S1;
+        exists RWE; repeat split.
+      all: pose proof (poll_connected_sub_ok now rd wr ss rs c1 S1) as P;
+        destruct (poll_connected dec now rd wr ss rs c1) as [c2 o2]; exact P.
+    - unfold step, step_gen. apply disconnect_sub_ok.
+    - unfold step, step_gen, sub_ok. cbn. reflexivity.
+  Qed.
+
+  Theorem run_sub_ok es : forall c, sub_ok c -> sub_ok (fst (run dec c es)).
+  Proof.
+    induction es as [|e es IH]; intros c H; cbn [run]; [exact H|].
+    pose proof (step_sub_ok c e H) as S1.
+    destruct (step dec c e) as [c1 o]. cbn [fst] in S1.
+    specialize (IH c1 S1). destruct (run dec c1 es) as [c2 os]. exact IH.
+  Qed.
+
+End C13Sub.
+
+(* what sub_ok says, clause by clause (wants_write c = the subscription includes WRITE) *)
+Lemma sub_ok_meaning c :
+  sub_ok c ->
+  (st c = Connected -> wbuf c <> [] -> wants_write c = true) /\
+  (st c = Connecting -> wants_write c = true) /\
+  (st c <> Disconnected -> exists m, interest c = Some m /\ m_rd m = true /\ m_er m = true) /\
+  (st c = Disconnected -> interest c = None).
+Proof.
+  unfold sub_ok, wants_write. intros H. destruct (st c) eqn:Es.
+  - repeat split; try discriminate; try congruence.
+  - rewrite H. repeat split; try discriminate; try congruence.
+    intros _. exists RWE. repeat split.
+  - destruct H as (m & A & B & C & D). rewrite A. repeat split; try discriminate.
+    + intros _ Hn. exact (D Hn).
+    + intros _. exists m. repeat split; assumption.
+Qed.
+
+Theorem write_interest_thm dec es c k :
+  sub_ok c ->
+  let c' := fst (run dec c (firstn k es)) in
+  (st c' = Connected -> wbuf c' <> [] -> wants_write c' = true) /\
+  (st c' = Connecting -> wants_write c' = true) /\
+  (st c' <> Disconnected -> exists m, interest c' = Some m /\ m_rd m = true /\ m_er m = true) /\
+  (st c' = Disconnected -> interest c' = None).
+Proof. intros H c'. apply sub_ok_meaning. apply run_sub_ok. exact H. Qed.
+
+(* the two ways a connection is created: TcpConnection(poller, socket=s) and TcpConnection(poller) *)
+Example ex_sub_ok_init now tmo rc ru : sub_ok (init_conn now tmo rc ru).
+Proof. unfold sub_ok, init_conn. cbn. exists RWE. repeat split. Qed.
+
+Example ex_sub_ok_unconnected now tmo rc ru : sub_ok (cleared (init_conn now tmo rc ru)).
+Proof. reflexivity. Qed.
+
+Theorem write_interest_init dec es now tmo rc ru k :
+  let c' := fst (run dec (init_conn now tmo rc ru) (firstn k es)) in
+  (st c' = Connected -> wbuf c' <> [] -> wants_write c' = true) /\
+  (st c' = Connecting -> wants_write c' = true) /\
+  (st c' <> Disconnected -> exists m, interest c' = Some m /\ m_rd m = true /\ m_er m = true) /\
+  (st c' = Disconnected -> interest c' = None).
+Proof. exact (write_interest_thm dec es _ k (ex_sub_ok_init now tmo rc ru)). Qed.
+
+(* ------------------------------------------------------------------ *)
+(* C13_writer_progress                                                 *)
+
+(* a WRITE event of the fair environment: only WRITE, the socket takes at least one byte (first
+   socket.send returns k > 0; the model takes max 1 k), then anything short of an error; no
+   timeout *)
+Definition write_event_ok (last tmo : Z) (e : event) : Prop :=
+  match e with
+  | EPoll now rd wr er soerr (SAccept _ :: ss) _ =>
+    rd = false /\ wr = true /\ er = false /\ soerr = false /\ now - last <= tmo /\ Forall benign ss
+  | _ => False
+  end.
+
+Lemma write_event_benign last tmo e : write_event_ok last tmo e -> benign_event last tmo e.
+Proof.
+  destruct e as [now p script|now rd wr er soerr ss rs|now|now]; cbn [write_event_ok];
+    try (intro Hf; exact (match Hf with end)).
+  destruct ss as [|[k| | | |] ss]; try (intro Hf; exact (match Hf with end)).
+  intros (A & B & C & D & E & F). cbn [benign_event]. repeat split; try assumption.
+  constructor; [exact I|exact F].
+Qed.
+
+Lemma try_send_first_accept now k ss c :
+  st c = Connected -> now - last_read c <= timeout c -> wbuf c <> [] ->
+  accepted (snd (try_send now (SAccept k :: ss) c)) <> [].
+Proof.
+  intros Hst Ht Hw. unfold try_send. rewrite (check_timeout_ok now c Ht), Hst.
+  cbn [send_loop]. destruct (wbuf c) as [|x w] eqn:Ew; [congruence|].
+  remember (Nat.max 1 (N.to_nat (N.min k (N.of_nat (length (x :: w)))))) as k' eqn:Ek.
+  destruct (send_loop now ss (set_wbuf c (skipn k' (x :: w)))) as [c2 o2].
+  cbn [snd out_app accepted no_out app].
+  destruct k' as [|k']; [lia|]. cbn [firstn app]. discriminate.
+Qed.
+
+Section C13Progress.
+  Variable dec : bytes -> dres.
+
+  Lemma step_write_event c e c1 o :
+    st c = Connected -> write_event_ok (last_read c) (timeout c) e ->
+    step dec c e = (c1, o) ->
+    exists rest,
+      eqi c1 (set_wbuf c rest) /\ accepted o ++ rest = wbuf c /\ silent o /\
+      (wbuf c <> [] -> accepted o <> []).
+  Proof.
+    intros Hst Hw H.
+    destruct (step_writer_benign dec c e c1 o Hst (write_event_benign _ _ e Hw) H) as (rest & Q & A & S).
+    exists rest.
+    destruct e as [now p script|now rd wr er soerr ss rs|now|now]; try exact (match Hw with end).
+    destruct ss as [|[k| | | |] ss]; try exact (match Hw with end).
+    destruct Hw as (-> & -> & -> & -> & Ht & Hs).
+    unfold sent_of, sent_payloads in A. cbn [flat_map map concat app] in A. rewrite app_nil_r in A.
+    split; [exact Q|split; [exact A|split; [exact S|]]].
+    intros Hne.
+    unfold step, step_gen in H. rewrite Hst in H.
+    rewrite (check_timeout_ok now c Ht) in H. cbv beta iota zeta in H. rewrite Hst in H.
+    cbn [orb andb] in H. unfold poll_connected_gen in H.
+    pose proof (try_send_first_accept now k ss c Hst Ht Hne) as F.
+    destruct (try_send now (SAccept k :: ss) c) as [c2 o2]. cbn [snd] in F.
+    assert (Ho : o = out_app no_out o2).
+    { destruct (st c2); cbv beta iota in H; cbn [st resubscribe set_interest] in H;
+        try (destruct (st c2)); apply (f_equal snd) in H; cbn [snd] in H; congruence. }
+    rewrite Ho, out_app_no_out_l. exact F.
+  Qed.
+
+  Theorem writer_progress ws : forall c,
+    sub_ok c -> st c = Connected ->
+    Forall (write_event_ok (last_read c) (timeout c)) ws ->
+    (length (wbuf c) <= length ws)%nat ->
+    exists c' os,
+      fair_run dec c ws = (c', os) /\
+      st c' = Connected /\ wbuf c' = [] /\ rbuf c' = rbuf c /\
+      acc_of os = wbuf c /\ Forall silent os.
+  Proof.
+    induction ws as [|e ws IH]; intros c Hok Hst Hws Hlen.
+    - exists c, []. cbn in Hlen. destruct (wbuf c) eqn:Ew; [|cbn in Hlen; lia].
+      repeat split; try assumption. constructor.
+    - cbn [fair_run]. destruct (wants_write c) eqn:Eww.
+      + inversion Hws as [|e' ws' Hw1 Hw2]; subst e' ws'.
+        destruct (step dec c e) as [c1 o] eqn:E1.
+        pose proof (step_sub_ok dec c e Hok) as Hok1. rewrite E1 in Hok1. cbn [fst] in Hok1.
+        apply (step_write_event c e c1 o Hst Hw1) in E1 as (rest & Q & A & S & P).
+        destruct Q as (Q1 & Q2 & Q3 & Q4 & Q5 & _).
+        cbn [st rbuf wbuf last_read timeout set_wbuf] in Q1, Q2, Q3, Q4, Q5.
+        assert (Hst1 : st c1 = Connected) by congruence.
+        assert (Hws1 : Forall (write_event_ok (last_read c1) (timeout c1)) ws) by (rewrite Q4, Q5; exact Hw2).
+        assert (Hlen1 : (length (wbuf c1) <= length ws)%nat).
+        { rewrite Q3. apply (f_equal (@length N)) in A. rewrite app_length in A.
+          cbn [length] in Hlen. destruct (wbuf c) as [|x w] eqn:Ew.
+          - cbn in A. lia.
+          - assert (accepted o <> []) as Hne by (apply P; discriminate).
+            destruct (accepted o); [congruence|]. cbn [length] in *. lia. }
+        destruct (IH c1 Hok1 Hst1 Hws1 Hlen1) as (c' & os & F & R1 & R2 & R3 & R4 & R5).
+        exists c', (o :: os). rewrite F.
+        change (acc_of (o :: os)) with (accepted o ++ acc_of os).
+        rewrite R4, Q3, A. repeat split; try assumption; try congruence.
+        constructor; assumption.
+      + exists c, [].
+        destruct (sub_ok_meaning c Hok) as (M1 & _).
+        destruct (wbuf c) eqn:Ew.
+        * repeat split; try assumption. constructor.
+        * rewrite (M1 Hst) in Eww; [discriminate|]. try rewrite Ew. discriminate.
+  Qed.
+
+End C13Progress.
+
+(* ---- concrete instances ---- *)
+
+(* 5 bytes wait in the write buffer of a connection subscribed with READ|WRITE|ERROR; the fair
+   environment offers five WRITE events, the socket takes 2 bytes each time: the third event
+   empties the buffer and drops WRITE from the subscription, the environment stops *)
+Definition ex_pending : conn := set_wbuf ex_c0 [0; 0; 10; 11; 12]%N.
+Definition ex_wr_event (t : Z) : event := EPoll t false true false false [SAccept 2; SEagain] [].
+Definition ex_wr_events : list event := map ex_wr_event [1; 2; 3; 4; 5].
+
+Example ex_writer_progress :
+  exists c' os,
+    fair_run ex_dec ex_pending ex_wr_events = (c', os) /\
+    st c' = Connected /\ wbuf c' = [] /\ rbuf c' = rbuf ex_pending /\
+    acc_of os = wbuf ex_pending /\ Forall silent os.
+Proof.
+  apply (writer_progress ex_dec ex_wr_events ex_pending).
+  - unfold sub_ok. cbn. exists RWE. repeat split.
+  - reflexivity.
+  - repeat constructor; cbn; lia.
+  - cbn. lia.
+Qed.
+
+Example ex_writer_progress_computed :
+  fair_run ex_dec ex_pending ex_wr_events
+  = (set_interest ex_c0 (Some (RE false)),
+     [{| accepted := [0; 0]%N; delivered := []; disc_calls := 0; conn_calls := 0; miss := false |};
+      {| accepted := [10; 11]%N; delivered := []; disc_calls := 0; conn_calls := 0; miss := false |};
+      {| accepted := [12]%N; delivered := []; disc_calls := 0; conn_calls := 0; miss := false |}]).
+Proof. vm_compute. reflexivity. Qed.
+
+(* ---- the rules as they were: refutations ---- *)
+
+(* send() without the subscribe at its end (before commit 6d311d2): a WRITE event with nothing to
+   write leaves READ|ERROR; the next send() gets 2 of its 7 bytes out; the other 5 wait in the
+   buffer of a CONNECTED connection that has not asked for writability: no fair environment ever
+   delivers a WRITE event.  Under the code as it is the same events end with WRITE subscribed. *)
+Definition ex_old_send_events : list event :=
+  [EPoll 1 false true false false [] [];
+   ESend 2 (ex_payload 1) [SAccept 2; SEagain]].
+
+Theorem old_send_stalls :
+  exists (dec : bytes -> dres) (es : list event),
+    let c' := fst (run_gen dec false true (init_conn 0 10 false false) es) in
+    st c' = Connected /\ wbuf c' <> [] /\ wants_write c' = false /\
+    (forall ws, fair_run dec c' ws = (c', [])) /\
+    wants_write (fst (run dec (init_conn 0 10 false false) es)) = true.
+Proof.
+  exists ex_dec, ex_old_send_events. cbv zeta.
+  split; [vm_compute; reflexivity|]. split; [vm_compute; discriminate|].
+  split; [vm_compute; reflexivity|]. split; [|vm_compute; reflexivity].
+  intros ws. destruct ws; vm_compute; reflexivity.
+Qed.
+
+(* the WRITE branch of __processConnection with the test `state == DISCONNECTED` after
+   __trySendBuffer() (before the fix): socket.send fails, disconnect() closes and unsubscribes the
+   descriptor, the callback reconnects, the new socket gets the same descriptor number, and the
+   handler goes on to subscribe(descr, READ|ERROR): the CONNECTING connection has lost WRITE (its
+   connect completion is never reported); once something else marks it CONNECTED, bytes wait in
+   its write buffer without WRITE subscribed.  Under the code as it is the same events keep WRITE. *)
+Definition ex_stale_events : list event :=
+  [ESend 1 (ex_payload 1) [SAccept 2; SEagain];
+   EPoll 2 false true false false [SErr] [];
+   ESend 3 (ex_payload 2) [SEagain];
+   EPoll 4 true false false false [] []].
+
+Theorem old_write_branch_resubscribes_closed_descr :
+  exists (dec : bytes -> dres) (es : list event) (k : nat),
+    let c1 := fst (run_gen dec true false (init_conn 0 10 true true) (firstn k es)) in
+    let c2 := fst (run_gen dec true false (init_conn 0 10 true true) es) in
+    st c1 = Connecting /\ wants_write c1 = false /\
+    st c2 = Connected /\ wbuf c2 <> [] /\ wants_write c2 = false /\
+    wants_write (fst (run dec (init_conn 0 10 true true) (firstn k es))) = true /\
+    wants_write (fst (run dec (init_conn 0 10 true true) es)) = true.
+Proof.
+  exists ex_dec, ex_stale_events, 2%nat. cbv zeta.
+  repeat split; try (vm_compute; reflexivity). vm_compute. discriminate.
+Qed.
+
+(* run is run_gen with both rules as they are now *)
+Lemma run_gen_fixed dec es : forall c, run_gen dec true true c es = run dec c es.
+Proof. induction es as [|e es IH]; intros c; cbn [run run_gen]; [reflexivity|].
+  change (step_gen dec true true c e) with (step dec c e).
+  destruct (step dec c e) as [c1 o]. rewrite IH. reflexivity. Qed.
